@@ -312,7 +312,7 @@ def c07(ck):
         if l[0] in (b"help",):
             continue
         line = drv_run("quote", [",".join(gen.hx(x) for x in l)])[0].split(" ")[0]
-        c = "64 64 1 raw b:%s;b:0d" % line
+        c = "%d 64 1 raw b:%s;b:0d" % (max(64, len(line) // 2 + 4), line)
         ses.append(c)
         swant[c] = "%s(%s)" % (gen.hx(l[0]), ",".join("V:" + gen.hx(x) for x in l[1:]) if len(l) > 1 else "-")
 
@@ -1283,6 +1283,8 @@ def tab_sweep_sessions(declgen, sets, maxpre=3):
 
 
 def lines_to_session(k, lines, cap=80, hcap=64):
+    # the command buffer always holds the longest line of the session (the oracles speak about the line as generated)
+    cap = max([cap] + [len(l.encode("utf-8")) + 4 for l in lines])
     return "%d %d 1 d%d %s" % (cap, hcap, k, ";".join("b:" + gen.hx(l.encode("utf-8")) + ";b:0d" for l in lines))
 
 
